@@ -19,6 +19,7 @@ func c17(args []string) error {
 	allPairs := fs.Bool("all", false, "all 65,025 (version, network) pairs")
 	nCorrupt := fs.Int("corrupt", 20, "number of encodings whose every single-character corruption is tried")
 	only := fs.Bool("only", false, "run only the cases file")
+	big := fs.Bool("big", false, "only: one 520 000-byte payload encoded, decoded and validated")
 	fs.Parse(args)
 	tr, err := newTrace(*out)
 	if err != nil {
@@ -101,6 +102,15 @@ func c17(args []string) error {
 	}
 
 	if *only {
+		return tr.close()
+	}
+	if *big {
+		// only the one payload of more than half a megabyte (text above one million characters): no length is special
+		data := make([]byte, 520000)
+		rng.Read(data)
+		text := enc("enum-big", bscript.PrefixScript, 1, 1, data)
+		dec("enum-big", text)
+		val("enum-big", text)
 		return tr.close()
 	}
 	// (b) own enumeration
